@@ -351,6 +351,13 @@ func (s *grpcServer) fillDirectories(ctx context.Context, resp *pb.GetTreeRespon
 	// Recursively append all the child dirs.
 	for _, dirNode := range dir.Directories {
 
+		if dirNode == nil || dirNode.Digest == nil {
+			// Stored blobs are arbitrary bytes: skip malformed child nodes
+			// instead of dereferencing a nil digest.
+			s.accessLogger.Printf("GRPC GETTREEREQUEST SKIPPING DIRECTORY NODE WITHOUT DIGEST")
+			continue
+		}
+
 		err := s.validateHash(dirNode.Digest.Hash, dirNode.Digest.SizeBytes, errorPrefix)
 		if err != nil {
 			return err
